@@ -178,7 +178,8 @@ static void bt_unregister(int slot)
 
 /* OP_BULK: d = kind, a = count, b = span / mode, c = seed
  *   kind 0: register a timers with expiries in [now, now + b], quantised so that many keys are equal
- *   kind 1: unregister a victims; mode b: 0 random, 1 newest, 2 oldest, 3 smallest expiry, 4 largest expiry
+ *   kind 1: unregister a victims; mode b: 0 random, 1 newest, 2 oldest, 3 smallest expiry, 4 largest expiry,
+ *           5 one of the four newest
  *   kind 2: register a timers that are already due (past / zero / now) */
 static int bulk_op(struct rthr *th, const struct pop *op)
 {
@@ -213,6 +214,23 @@ static int bulk_op(struct rthr *th, const struct pop *op)
 			int k, pick = -1, mode = (int)op->b;
 			if (mode == 0) {
 				pick = bt_armed[bt_rnd() % (uint64_t)bt_narmed];
+			} else if (mode == 5) {
+				/* one of the four most recently armed timers (cancelling a fresh time-out) */
+				int best[4] = { -1, -1, -1, -1 }, nb = 0, j;
+				for (k = 0; k < bt_narmed; k++) {
+					int c = bt_armed[k];
+					for (j = 0; j < 4; j++)
+						if (best[j] < 0 || BT[c].reg_seq > BT[best[j]].reg_seq) {
+							int m;
+							for (m = 3; m > j; m--)
+								best[m] = best[m - 1];
+							best[j] = c;
+							break;
+						}
+				}
+				while (nb < 4 && best[nb] >= 0)
+					nb++;
+				pick = best[bt_rnd() % (uint64_t)nb];
 			} else {
 				for (k = 0; k < bt_narmed; k++) {
 					struct btimer *b = &BT[bt_armed[k]], *p = pick >= 0 ? &BT[pick] : NULL;
